@@ -775,7 +775,7 @@ Proof.
   unfold pull. destruct (find_child l (w_children st)) as [c|]; [|apply same_graph_refl].
   destruct (build_io st DIn) as [pin|]; [|apply same_graph_refl].
   destruct (build_io st DOut); [|apply same_graph_refl].
-  destruct (cyclic st || (wp && exposes_connected st pin)); [apply same_graph_refl|].
+  destruct (cyclic st); [apply same_graph_refl|].
   set (st0 := if wp then fetch_ids st (map snd pin) else st).
   assert (G0 : same_graph st st0) by (unfold st0; destruct wp; repeat split).
   match goal with |- same_graph st (fst (set_cache (run_self ?s1 c) None, ROk)) =>
